@@ -115,6 +115,9 @@ def glue_contracts(T: Types, reg: Registry):
                  ensures=unchanged(REC) + [("J5", j5)]),
             Case("refused", when=lambda c: z3.And(OREC.is_some(cell_inv(c)), err_i(c)), raises="InvocationStatusError",
                  ensures=unchanged(REC) + [("J5", j5)]),
+            Case("storage-fault", raises="Exception", ensures=[
+                ("a-failed-outcome-write-publishes-nothing", lambda c: z3.Implies(
+                    z3.Not(z3.Select(c.f(store_path), inv_id(c))), c.f(REC) == c.old(REC))), ("J5", j5)]),
             Case("published", when=lambda c: z3.And(OREC.is_some(cell_inv(c)), z3.Not(err_i(c))), ensures=[
                 ("outcome-stored", lambda c: z3.Select(c.f(store_path), inv_id(c))),
                 ("status-published", lambda c: status_of(T, c.f(REC), inv_id(c)) == T.S(target)),
